@@ -88,12 +88,14 @@ Proof. exact (fun ws n qlen opened evs s tr ev =>
   no_block_after_close max_payload_size ws n qlen opened evs s tr ev max_payload_ok). Qed.
 Print Assumptions C11_no_block_after_close.
 
-(* the clause spelled out for a connection opened on a Mux that is closed already (mux.Open closes it at
+(* (not_in_map id s: the id was never opened or its connection was closed by conn.Close — a re-Open makes
+   a fresh object)
+   the clause spelled out for a connection opened on a Mux that is closed already (mux.Open closes it at
    once; whether the source does so is read from mux.go on every run: MuxConsts.open_closes_on_closed):
    Open succeeds, every Read returns the latched error (end-of-file when none was latched), every Write
    returns end-of-file; nothing blocks *)
 Theorem C11_open_after_close_fails : forall s id,
-  m_closed s = true -> find_conn id (m_conns s) = None -> id <> reserved_conn_id ->
+  m_closed s = true -> not_in_map id s -> id <> reserved_conn_id ->
   let s1 := fst (step s (EvOpen id)) in
   snd (step s (EvOpen id)) = ROk /\ m_closed s1 = true /\
   (forall pick, exists e, snd (step s1 (EvRead id pick)) = RErr e /\ (forall e0, m_err s = Some e0 -> e = e0)) /\
@@ -105,14 +107,35 @@ Print Assumptions C11_open_after_close_fails.
 (* the variant without that clause in Open (the code before 5cc5327) does not have the property:
    Close, Open 6, Read 6 — the Read blocks for ever *)
 Theorem C11_open_after_close_refuted :
-  let '(s, tr) := run_var false max_payload_size (init_mux [] 4 [1]) [EvClose; EvOpen 6; EvRead 6 true] in
+  let '(s, tr) := run_var false true max_payload_size (init_mux [] 4 [1]) [EvClose; EvOpen 6; EvRead 6 true] in
   m_closed s = true /\ map snd tr = [ROk; ROk; RBlock].
 Proof. exact open_after_close_refuted. Qed.
 Print Assumptions C11_open_after_close_refuted.
 
-(* … and nothing new is queued: Reads after close drain an initial part of what was queued *)
+(* stale handles.  An id whose connection was closed by conn.Close can be opened again: Open makes a fresh
+   connection object, the old object is a stale handle.  conn.Close removes the id from the map only if the
+   map still holds that very connection (MuxConsts.close_checks_identity, read from mux.go on every run), so
+   closing a stale handle once more changes nothing, in any state — and because EvOpen (incl. re-Open) and
+   EvStaleClose are events of the machine, C11_no_block_after_close, C11_error_latched and the idempotence
+   theorems cover re-opened ids for all schedules *)
+Theorem C11_stale_close_is_noop : forall id s, fst (step s (EvStaleClose id)) = s.
+Proof. exact (stale_close_is_noop max_payload_size). Qed.
+Print Assumptions C11_stale_close_is_noop.
+
+(* the variant that deletes unconditionally does not have the property: open 1, close it, open 1 again, close
+   the old handle once more, Mux.Close — the replacement is not in the map, nobody closes it, its Read blocks
+   (the sibling connection 2 gets its end-of-file) *)
+Theorem C11_stale_close_unguarded_refuted :
+  let '(s, tr) := run_var true false max_payload_size (init_mux [] 4 [1; 2])
+                    [EvConnClose 1; EvOpen 1; EvStaleClose 1; EvClose; EvRead 1 true; EvRead 2 true] in
+  m_closed s = true /\ map snd tr = [ROk; ROk; ROk; ROk; RBlock; RErr EEOF].
+Proof. exact stale_close_unguarded_refuted. Qed.
+Print Assumptions C11_stale_close_unguarded_refuted.
+
+(* … and nothing new is queued: Reads after close drain an initial part of what was queued (for an id that
+   the schedule does not open again: a re-Open starts with an empty queue) *)
 Theorem C11_drain_after_close : forall id evs s s' tr,
-  m_closed s = true -> run s evs = (s', tr) ->
+  m_closed s = true -> no_open_of id evs = true -> run s evs = (s', tr) ->
   queue_in id s = received id tr ++ queue_in id s'.
 Proof. exact (drain_after_close max_payload_size). Qed.
 Print Assumptions C11_drain_after_close.
@@ -207,6 +230,15 @@ Example C11_example_open_after_close :
   let '(s, tr) := run (init_mux (trunk ex_ws) 1 [1;2]) evs in
   m_closed s = true /\ late_opened 6 s = true /\ late_opened 1 s = false /\
   map snd tr = [ROk; ROk; ROk; ROk; ROk; RErr EErr; RErr EErr; RErr EEOF; RErr EErr; ROk; RData [1;2;3]].
+Proof. vm_compute. repeat split. Qed.
+(* the four-step sequence on the machine of the theorems (guard as generated), then Mux.Close: both wake *)
+Example C11_example_reopen :
+  close_checks_identity = true /\
+  let evs := [EvConnClose 1; EvOpen 1; EvStaleClose 1; EvStaleClose 1; EvStaleClose 2; EvReader; EvRead 1 true;
+              EvClose; EvRead 1 true; EvRead 2 true; EvWrite 1 [9] None] in
+  let '(s, tr) := run (init_mux (trunk [(1, [5;6])]) 4 [1; 2]) evs in
+  late_opened 1 s = true /\
+  map snd tr = [ROk; ROk; ROk; ROk; RNoConn; ROk; RData [5;6]; ROk; RErr EEOF; RErr EEOF; RErr EEOF].
 Proof. vm_compute. repeat split. Qed.
 Example C11_example_listener :
   snd (lrun init_lst [LAccept; LAccept; LClose; LAccept; LClose; LAccept]) = [LConn; LBlock; LOk; LEof; LOk; LEof].
